@@ -79,4 +79,19 @@ def pickContainer {β : Type} (containers : List (String × List β)) : List Str
 def containerKeys : List String :=
   Dcg.Gen.Formats.jsonSchemaPathsSplit.filterMap (fun p => match p with | [k] => some k | _ => none)
 
+/-- what the body of a named schema looks like to the walk (nothing else about it matters there) -/
+inductive Body where
+  | empty        -- `{}`: the "accept anything" schema
+  | keywordsOnly -- a mapping without `type`/`properties` (`{description: …}`, `{title: …}`, `{nullable: true}`)
+  | typed        -- anything with a type / properties / items
+  | notAMapping  -- `true`, `false`, `null`: refused by `JsonSchemaObject.parse_obj`
+  deriving Repr, DecidableEq
+
+/-- the walk over the entries of the chosen container (`for obj_name, raw_obj in definitions.items():
+self.parse_raw_obj(obj_name, raw_obj, …)`, and the same loop over `components.schemas` in `OpenAPIParser.parse_raw`):
+every entry is handed to `parse_raw_obj`, WHATEVER its body is — in particular an empty mapping is a schema like any
+other; a body that is not a mapping aborts the run. Result: the names that become top-level definitions, in order. -/
+def walkNamed (entries : List (String × Body)) : Option (List String) :=
+  if entries.any (fun e => e.2 == .notAMapping) then none else some (entries.map (·.1))
+
 end Dcg.Model.Bounds
